@@ -6,7 +6,20 @@ properties it serves ('C11', 'C12' or both); props/C12_e1.py selects its list fr
    ref->dec   reference encoder -> carquet decoder == v, consumed == stream size                           [C12]
    roundtrip  carquet encoder  -> carquet decoder == v, consumed == written                                [C11]
 Where carquet's decoder is not CBMC-tractable (hybrid RLE, DELTA_*: control flow follows the input bytes) C11 for
-that family is the composition of the enc->ref obligation here with the ref->dec obligation discharged by E2."""
+that family is the composition of the enc->ref obligation here with the ref->dec obligation discharged by E2.
+
+Families (harness/e1/c11_*.c, c12_rle_dec.c):
+  plain      all physical types, the three directions above
+  rle        hybrid RLE encoder end-to-end for small n (encode_all, put/put_repeat/flush, int16 levels, level block with prefix)
+  rle_step   the same encoder as an inductive invariant: one put / one flush from ANY state -> every n, every run structure
+  bitpack    carquet_bitpack_32/unpack_32, 8-value kernels, bit writer / reader, all widths
+  delta      DELTA_BINARY_PACKED encoder: value-dependent helpers for every 64-bit argument; whole encoder n <= 1 (quick), <= 3 (thorough)
+  bss        BYTE_STREAM_SPLIT float/double (dispatcher: scalar kernels, and any kernel under symbolic CPU bits) / generic width
+  strings    DELTA_LENGTH_BYTE_ARRAY / DELTA_BYTE_ARRAY encoders relative to a function summary of the integer encoder
+  dictionary dictionary encoder (n <= 1: the hash-table teardown defeats CBMC beyond that) relative to a summary of the RLE encoder
+  (C12_e1.rle_dec) hybrid RLE / level / dictionary-index decoders and the streaming decoder on specification streams with concrete layouts
+Left to E2: DELTA_* decoders, DELTA_BINARY_PACKED encoder beyond 3 values (block/mini-block boundaries), dictionary encoder for
+n >= 2, RLE decoders on arbitrary layouts/bytes, streaming decoder under symbolic chunking."""
 from e1 import E1
 
 FILES = ['src/encoding/plain.c', 'src/encoding/rle.c', 'src/encoding/delta.c', 'src/encoding/delta_length.c',
@@ -84,8 +97,10 @@ def rle(tier):
               'ref_uleb32_read.0': 6, 'ref_load_le.0': 5, 'memcpy.0': max(tot * 4, 33) + 1, 'ref_get_bits_lsb.0': bw + 2}
         o.append(tag(E1(nm, H, src, d, unwind=max(tot, 33) + 3, unwindset=us, backends=('minisat', 'kissat'), timeout=to, models=True, ref=['ref_rle.c'], exclude='F-RLE-PAD',
                         includes_source=['src/writer/page_writer.c'] if mode == 4 else [],
-                        bounds='bit width %d, %d values, every value < 2^%d, every run structure; compared with the reference hybrid decoder' % (bw, tot, bw) +
-                               ('; C11 for this family = this obligation composed with the E2 obligation "carquet decoder == reference decoder on every stream"'),
+                        stubs=['carquet_rle_encode_all: function summary (records levels and bit width, appends an arbitrary 0..6-byte blob); the real encoder is the subject of rle/encode_all, rle/inductive'] if mode == 4 else [],
+                        bounds=('%d level(s), every max_level 1..32767, every level <= max_level; 4-byte prefix and bit width of the data-page-v1 level block' % tot) if mode == 4 else
+                               ('bit width %d, %d values, every value < 2^%d, every run structure; compared with the reference hybrid decoder' % (bw, tot, bw) +
+                                '; C11 for this family = this obligation composed with the E2 obligation "carquet decoder == reference decoder on every stream"'),
                         functions=fn), both))
     # end-to-end runs for small n (the inductive obligations of rle_step cover every n; these tie them to the public entry points)
     if quick:
@@ -95,11 +110,13 @@ def rle(tier):
         one(2, 3, 2, r=2); one(3, 1, 4); one(3, 2, 2); one(4, 1, 0); one(4, 1, 3)
     else:
         for bw in (0, 1, 2, 3, 7, 8, 9, 16, 31, 32):
-            for n in ((0, 1, 2, 3, 4, 5, 6, 8, 9, 10, 12) if bw in (1, 3, 8) else (0, 1, 2, 4, 8, 9)):
+            # measured (loaded machine): n=8/9 at widths 0/1: 150-180 s; bw3 n=10: no verdict in 900 s; bw16/31 n=8: CBMC runs out of
+            # memory.  The inductive obligations (rle_step) are what covers longer sequences.
+            for n in ((0, 1, 2, 3, 4, 5, 6, 8, 9) if bw in (1, 3, 8) else (0, 1, 2, 4)):
                 one(1, bw, n, to=900)
-        for bw, n, r in ((3, 2, 2), (1, 1, 9), (8, 2, 8)):
+        for bw, n, r in ((3, 2, 2), (1, 0, 9)):
             one(2, bw, n, r=r, to=900)
-        for bw, n in ((1, 0), (1, 4), (1, 9), (2, 5), (3, 9), (16, 3)):
+        for bw, n in ((1, 0), (1, 4), (1, 9), (2, 5), (16, 3)):
             one(3, bw, n, to=900)
         for n in (0, 1, 3, 9):
             one(4, 1, n)
@@ -162,7 +179,7 @@ def delta(tier):
               'ref_delta_decode_core.2': nblocks + 1, 'ref_delta_decode_core.1': min(4, (nd + 31) // 32) + 1, 'ref_delta_decode_core.0': min(32, nd) + 1, 'carquet_bitpack8_32.1': 5,
               'delta_encoder_flush_block.5': 10, 'delta_encoder_flush_block.7': 10}
         o.append(tag(E1(nm, H, SRC, ['-DMODE=1', '-DVT=%d' % t, '-DVN=%d' % n, '-DVWIDE=%d' % wide], unwind=max(n, 33) + 3, unwindset=us, backends=be, timeout=to,
-                        ref=['ref_delta.c', 'ref_rle.c'], exclude='F-DELTA-WIDE' if n >= 2 else ('F-DELTA-EMPTY' if n == 0 else None), stub_realloc=False,
+                        ref=['ref_delta.c', 'ref_rle.c'], exclude='F-DELTA-WIDE' if n >= 3 else ('F-DELTA-EMPTY' if n == 0 else None), stub_realloc=False,
                         bounds='%d int%d value(s): %s; wrap-around deltas, INT_MIN/INT_MAX and 33..64-bit deltas included; destination = exact-size object; '
                                'C11 for this family = this obligation composed with the E2 obligation on carquet_delta_decode_int%d' %
                                (n, t, 'every value arbitrary' if wide >= n else '%d positions arbitrary (first, last, evenly spread), the others previous + symbolic int8 step' % wide, t),
@@ -172,10 +189,12 @@ def delta(tier):
                     bounds='every 64-bit argument', functions=['write_uleb128', 'zigzag_encode64', 'bit_width_required']), both))
     # whole encoder: the mini-block bodies are written at symbolic offsets with symbolic widths, which CBMC flattens into very
     # large formulas (n=2: 4M variables / 21M clauses, kissat ~5 min on a loaded machine, cvc5/z3 no verdict in 600 s).
-    # quick: n = 0, 1 (header only); thorough: n = 2, 3.  Longer sequences / block boundaries are left to E2.
+    # quick: n = 0, 1 (header only); thorough: n = 2 (3-6 min; a single delta, so every width is 0) and n = 3 (the first size
+    # with a non-trivial mini-block: 20-30 min per obligation on a loaded machine, kissat only).  Longer sequences, block
+    # boundaries (n = 32, 33, 129, 130) and the decoder are left to E2.
     for t in (32, 64):
-        for n in ([0, 1] if quick else [0, 1, 2, 3]):
-            one(t, n, to=200 if n < 2 else 1800, be=ALL if n < 2 else ('kissat',))
+        for n in ([0, 1] if quick else ([0, 1, 2, 3] if t == 64 else [0, 1, 2])):
+            one(t, n, to=200 if n < 2 else (900 if n == 2 else 2400), be=ALL if n < 2 else ('kissat',))
     return o
 
 
